@@ -53,6 +53,7 @@ type FuncContract struct {
 	Props      []string
 	Requires   []*Clause
 	Ensures    []*Clause
+	ExitCode   *Clause // condition on the argument `code` of every os.Exit reached (the process status is code mod 256)
 	Panics     *Clause // may/must panic exactly when (old state)
 	MayPanic   bool
 	Assigns    []*Clause
@@ -239,7 +240,7 @@ func (cs *Contracts) load(path string) error {
 				return fmt.Errorf("%s:%d: %v", path, l.line, err)
 			}
 			cur.Ghosts = append(cur.Ghosts, sd)
-		case "requires", "ensures", "invariant", "decreases", "assigns", "panics", "lemma", "ghostaxiom", "use", "use_end", "use_entry", "step":
+		case "requires", "ensures", "invariant", "decreases", "assigns", "panics", "lemma", "ghostaxiom", "use", "use_end", "use_entry", "step", "exit_code":
 			if cur == nil {
 				return fmt.Errorf("%s:%d: clause outside func", path, l.line)
 			}
@@ -297,6 +298,8 @@ func (cs *Contracts) load(path string) error {
 				loop.Steps = append(loop.Steps, c)
 			case "panics":
 				cur.Panics = c
+			case "exit_code":
+				cur.ExitCode = c
 			case "invariant":
 				if loop == nil {
 					return fmt.Errorf("%s:%d: invariant outside loop", path, l.line)
